@@ -1,6 +1,7 @@
 use crate::runner::{Ctx, Property};
 
 pub mod c01;
+pub mod c09;
 pub mod c04;
 pub mod c07;
 pub mod c11;
@@ -23,6 +24,7 @@ pub mod c20;
 pub fn all(ctx: &Ctx) -> Vec<Property> {
     vec![
         c01::property(ctx),
+        c09::property(ctx),
         c04::property(ctx),
         c07::property(ctx),
         c11::property(ctx),
